@@ -232,7 +232,9 @@ static void run_case(Ctx& c, uint64_t idx) {
         if (i & 1) qW->multi_check(c, (unsigned)(i >> 1)); else qA->multi_check(c, (unsigned)(i >> 1)); return;
     }
     if (idx < nh) { c.note("query huge"); c.attribute("C17"); qA->huge_check(c, (int)(idx % 6)); if (c.tier == "thorough" && (idx % 6 == 0 || idx % 6 == 2 || idx % 6 == 4)) qW->huge_check(c, (int)(idx % 6)); c.distinct(idx + 12345); return; }
-    QItems L; int n = r.chance(1, 40) ? r.range(9, 70) : r.range(0, 8);
+    // item counts: mostly few; now and then many, half of those at the counts where a fixed-size table, a batch or a counter type would end
+    static const int COUNTS[] = {15, 16, 17, 31, 32, 33, 63, 64, 65, 99, 100, 101, 127, 128, 129, 255, 256, 257};
+    QItems L; int n = r.chance(1, 40) ? (r.coin() ? r.range(9, 70) : COUNTS[r.below(18)]) : r.range(0, 8);
     for (int i = 0; i < n; i++) { QItem it; it.key = r.chance(1, 6) ? Str() : gen_string(r, 10); it.hasValue = r.chance(2, 3); if (it.hasValue) it.value = r.chance(1, 6) ? Str() : gen_string(r, 10);
         if (n <= 8 && r.chance(1, 40)) { size_t len = special_length(r) % 1100; Str x = gen_string(r, len); while (x.size() < len) x += gen_string(r, len - x.size()).empty() ? Str("a") : gen_string(r, len - x.size()); x.resize(len); (r.coin() ? it.key : it.value) = x; if (!it.hasValue) it.value.clear(); }
         L.push_back(it); }
@@ -245,6 +247,7 @@ static void run_case(Ctx& c, uint64_t idx) {
     if (r.coin()) qA->compose_check(c, L, plus, nb); else qW->compose_check(c, L, plus, nb);
     // arbitrary strings through the splitter as well
     Str q = gen_string(r, 30); for (int i = 0; i < 3; i++) if (!q.empty()) q[r.below((uint32_t)q.size())] = "&=&"[i];
+    if (r.chance(1, 40)) { q.clear(); int m = COUNTS[r.below(18)]; for (int i = 0; i < m; i++) { if (i) q += '&'; q += gen_string(r, 3); if (r.coin()) { q += '='; q += gen_string(r, 3); } } for (auto& ch : q) if (!ch) ch = 'x'; c.count("dissect_many_items"); }
     if (r.coin()) qA->dissect_check(c, q, plus, (int)r.below(4), (int)r.below(3)); else qW->dissect_check(c, q, plus, (int)r.below(4), (int)r.below(3));
     if (idx % 3000 == 1) c.sample("list", esc(key.substr(0, 200)));
 }
